@@ -474,8 +474,12 @@ def check_program(case, srv, stats):
     spread_v, spread_g, spread_h = mpf(0), [mpf(0)] * n, [[mpf(0)] * n for _ in range(n)]
     rng = random.Random(12345)
     try:
-        for _ in range(4):
-            s = evaluate(case, perturber(rng, bits), 60)
+        u = mpf(2) ** -bits
+        # four random perturbations and the two one-sided ones (every intermediate result rounded up,
+        # every one rounded down): an intermediate result that one rounding moves out of a domain
+        # (erf(-4) is -1 in single precision, then Log1p) is found by the latter with certainty
+        for P in [perturber(rng, bits) for _ in range(4)] + [lambda x: x * (1 + u), lambda x: x * (1 - u)]:
+            s = evaluate(case, P, 60)
             spread_v = max(spread_v, abs(s.v - ref.v))
             for i in range(n):
                 spread_g[i] = max(spread_g[i], abs(s.g[i] - ref.g[i]))
